@@ -25,8 +25,12 @@ func main() {
 	shard := flag.String("shard", "", "worker mode: i/n")
 	partial := flag.String("partial", "", "worker mode: write the partial report to this file")
 	racePass := flag.Int("race-pass", 0, "free-running pass of C14's harness bodies for the race detector (binary built with -race): iterations per combination")
+	sweep := flag.String("c12-sweep", "", "function-level sweep of C12 (binary built with -tags verifsweep): full | smoke | values:<file>")
 	flag.Parse()
 	debug.SetGCPercent(400)
+	if *sweep != "" {
+		os.Exit(props.C12SweepMain([]string{*sweep}))
+	}
 	if *cpuprof != "" {
 		f, _ := os.Create(*cpuprof)
 		_ = pprof.StartCPUProfile(f)
